@@ -164,7 +164,7 @@ type LibCase struct {
 }
 
 var scenarios = []string{"gen-uniform", "gen-yule", "gen-caterpillar", "gen-balanced", "resolve", "shuffle", "rotate", "acr", "asr-nucl", "asr-protein",
-	"write-nexus", "write-phyloxml", "rename", "rename-auto", "consensus", "matrix", "cut", "tbe", "fbp", "remove-tips", "reroot-outgroup", "collapse", "clone-newick"}
+	"write-nexus", "write-phyloxml", "rename", "rename-shift", "write-nexus-numeric", "rename-auto", "consensus", "matrix", "cut", "tbe", "fbp", "remove-tips", "reroot-outgroup", "collapse", "clone-newick"}
 
 func feed(ts []*tree.Tree) <-chan tree.Trees {
 	ch := make(chan tree.Trees, len(ts))
@@ -282,6 +282,31 @@ func once(c LibCase) (string, error) {
 			return "", err
 		}
 		return t.Newick(), nil
+	case "rename-shift":
+		// new names that are also current names of other tips (a cyclic shift): the result must be
+		// the simultaneous renaming, whatever the iteration order over the map
+		mp := map[string]string{}
+		for i, n := range tips {
+			mp[n] = tips[(i+1)%len(tips)]
+		}
+		if err := t.Rename(mp); err != nil {
+			return "", err
+		}
+		return t.Newick(), nil
+	case "write-nexus-numeric":
+		// tip labels that look like the indices of the translate table
+		perm := rand.New(rand.NewSource(c.Seed)).Perm(len(tips))
+		mp := map[string]string{}
+		for i, n := range tips {
+			mp[n] = fmt.Sprint(perm[i])
+		}
+		for _, x := range ts {
+			if err := x.Rename(mp); err != nil {
+				return "", err
+			}
+		}
+		s, err := nexus.WriteNexus(feed(ts), true)
+		return s, err
 	case "rename-auto":
 		id := 0
 		mp := map[string]string{}
@@ -408,7 +433,7 @@ func firstDiff(a, b string) string {
 func TestC18Lib(t *testing.T) {
 	h.Run(t, h.Spec[LibCase]{
 		Property: "C18", Name: "lib", Quick: 4000, Thorough: 160000,
-		Rule: "23 library scenarios (4 generators, Resolve, ShuffleTips, RotateInternalNodes, ParsimonyAcr x 3 algorithms x random resolution, ParsimonyAsr on nucleotide alignments and on protein alignments containing X, WriteNexus +-translate, WritePhyloXML, Rename, RenameAuto, Consensus, ToDistanceMatrix, CutEdgesMaxLength, TBE with raw tree and log tables, FBP, RemoveTips, RerootOutGroup, collapse, Clone/Nexus) on generated trees with >= 12 tips, each performed 4 times from scratch in one process with the same seed: all results byte-identical; non-trivial = every case (the result depends on the generated input)",
+		Rule: "25 library scenarios (4 generators, Resolve, ShuffleTips, RotateInternalNodes, ParsimonyAcr x 3 algorithms x random resolution, ParsimonyAsr on nucleotide alignments and on protein alignments containing X, WriteNexus +-translate, WritePhyloXML, Rename, RenameAuto, Consensus, ToDistanceMatrix, CutEdgesMaxLength, TBE with raw tree and log tables, FBP, RemoveTips, RerootOutGroup, collapse, Clone/Nexus) on generated trees with >= 12 tips, each performed 4 times from scratch in one process with the same seed: all results byte-identical; non-trivial = every case (the result depends on the generated input)",
 		Gen: func(t *rapid.T, thorough bool) LibCase {
 			c := LibCase{Scenario: rapid.SampledFrom(scenarios).Draw(t, "scenario"), Seed: rapid.Int64Range(0, 1<<40).Draw(t, "seed"), Flag: rapid.Bool().Draw(t, "flag"), Algo: rapid.IntRange(0, 2).Draw(t, "algo")}
 			n := rapid.IntRange(12, 18).Draw(t, "n")
